@@ -34,7 +34,7 @@ FILES = {
     "gunicorn/workers/base.py": ["C05", "C18", "C11", "C04"],
     "gunicorn/workers/sync.py": ["C05", "C18", "C11", "C04"],
     "gunicorn/workers/gthread.py": ["C13", "C05", "C18", "C08", "C04"],
-    "gunicorn/workers/base_async.py": ["C05", "C18", "C04", "C02"],
+    "gunicorn/workers/base_async.py": ["C05", "C18", "C08", "C19", "C04", "C02"],
     "gunicorn/workers/workertmp.py": ["C11", "C20"],
     "gunicorn/glogging.py": ["C19"],
     "gunicorn/util.py": ["C20", "C05", "C15", "C02"],
